@@ -184,12 +184,13 @@ pub fn menu_multi(a: usize, b: usize) -> Menu {
     }
 }
 
-/// markers over (base, conv, q1[, conv2, q2]): 'r' restricted, 'u' unrestricted marker, 'n' no marker
+/// markers over (base, conv, q1[, conv2, q2]): 'r' restricted, 'a' restricted with required attributes on the marker, 'u' unrestricted marker, 'n' no marker
 pub fn with_markers(cfg: Cfg, spec: &str) -> Cfg {
     let mut t = vec![];
     for (d, c) in ["base", "conv", "q1", "conv2", "q2"].iter().zip(spec.chars()) {
         match c {
             'r' => t.push((*d, Marker::Restricted)),
+            'a' => t.push((*d, Marker::RestrictedAttrs)),
             'u' => t.push((*d, Marker::Coin)),
             _ => {}
         }
@@ -370,6 +371,7 @@ fn ledger_scenarios(tier: Tier, extra_probes: &dyn Fn(&Cfg, &Menu) -> Vec<Act>) 
     mk("B12/P1/F2/R4", Cfg::new(0, 2, ("0.1", "0.1"), "R4"), Menu { prices: vec!["2", "7"], ..menu_p1(1, 2) }, &mut v);
     mk("B11/P0/F3/R0", Cfg::new(0, 1, ("0.5", "0.5"), "R0"), menu_p0(1, 1, vec!["1", "2"]), &mut v);
     mk("B11/P1/F1/R2/rur", with_markers(Cfg::new(0, 2, ("0.25", "0.25"), "R2"), "rur"), menu_p1(1, 1), &mut v);
+    mk("B11/P1/F1/R0/aua", with_markers(Cfg::new(0, 2, ("0.25", "0.25"), "R0"), "aua"), Menu { prices: vec!["2"], ..menu_p1(1, 1) }, &mut v);
     mk("B11/P2/F1/R0", Cfg::new(1, 10, ("0.25", "0.25"), "R0"), menu_p2(1, 1), &mut v);
     // size increment a proper multiple of 10^precision: "price x increment whole" and "price within the precision" differ
     mk("B11/P2/lot-above-tick", Cfg::new(1, 20, ("0.25", "0.25"), "R0"), Menu { prices: vec!["0.5", "1.5"], sizes: vec![20, 40], match_sizes: vec![10, 20, 40], reject_sizes: vec![20], ..menu_p2(1, 1) }, &mut v);
@@ -645,6 +647,20 @@ pub fn plan(prop: &str, tier: Tier) -> Plan {
                 // (the larger carried-over book with the full match product costs 20 s: thorough only)
                 v.extend(upgrade_family(&|c, m| probes::match_product(c, m, false), false).into_iter().skip(1).filter(|s| th || !s.name.contains("0.18.2")));
             }
+            // sizes around and above 2^63 / 2^64 (the sweep's L matches: eligible ones must be carried out)
+            v.extend(value_sweep(Tier::Quick).into_iter().filter(|s| {
+                ["size4294967297/prices1-2/rates0.25", "size1000000000000000/prices9-10/rates0.25", "size3000000000000000000007/prices1-2/rates0.25", "size1208925819614629174706181/prices999-1000/rates0.999"].iter().any(|k| s.name.contains(k))
+            }));
+            {
+                let big = |sz: u128, name: &str| {
+                    let cfg = Cfg::new(0, 1, ("", ""), "R0");
+                    let menu = Menu { sizes: vec![sz], match_sizes: vec![sz / 2, sz], reject_sizes: vec![], ..menu_p0(1, 1, vec!["2", "4"]) };
+                    let p = probes::match_product(&cfg, &menu, false);
+                    scen(name, cfg, menu, p)
+                };
+                v.push(big(1u128 << 63, "B11/P0/F0/size-2^63"));
+                v.push(big((1u128 << 64) + 100, "B11/P0/F0/size-2^64+100"));
+            }
             if th {
                 mk("B21/multi-denom", multi(Cfg::new(0, 2, ("0.25", "0.25"), "R0")), menu_multi(2, 1), &mut v);
                 // (the full match product on two-sided decimal books was measured at 3.7e9 transitions per book)
@@ -770,6 +786,7 @@ pub fn plan(prop: &str, tier: Tier) -> Plan {
             mk("B11/P1/F1/rnn", with_markers(Cfg::new(0, 2, ("0.25", "0.25"), "R0"), "rnn"), small(menu_p1(1, 1)), &mut v);
             mk("B11/P1/F1/unr", with_markers(Cfg::new(0, 2, ("0.25", "0.25"), "R0"), "unr"), small(menu_p1(1, 1)), &mut v);
             mk("B11/P1/F1/rrr", with_markers(Cfg::new(0, 2, ("0.25", "0.25"), "R0"), "rrr"), small(menu_p1(1, 1)), &mut v);
+            mk("B11/P1/F1/aua", with_markers(Cfg::new(0, 2, ("0.25", "0.25"), "R0"), "aua"), small(menu_p1(1, 1)), &mut v);
             mk("B11/base-also-convertible", overlap(Cfg::new(0, 2, ("0.25", "0.25"), "R0")), small(menu_p1(1, 1)), &mut v);
             mk("B11/P1/F1/attrs1", with_attrs(Cfg::new(0, 2, ("0.25", "0.25"), "R0"), &["kyc"], &["kyc"]), small(menu_p1(1, 1)), &mut v);
             mk("B11/multi-denom", multi(Cfg::new(0, 2, ("0.25", "0.25"), "R0")), small(menu_multi(1, 1)), &mut v);
@@ -832,6 +849,9 @@ pub fn plan(prop: &str, tier: Tier) -> Plan {
             mk("B11/P0/rate1", Cfg::new(0, 1, ("0.9", "1"), "R0"), plain(menu_p0(1, 1, vec!["1", "2"])), &mut v);
             mk("B11/P2/F1", Cfg::new(1, 10, ("0.25", "0.25"), "R0"), plain(menu_p2(1, 1)), &mut v);
             mk("B11/p14/large-amounts", Cfg::new(14, 300_000_000_000_000, ("0.25", "0.25"), "R0"), plain(menu_large(1, 1)), &mut v);
+            // the seller collects the ask fee (and the buyer the bid fee); the approver collects both
+            mk("B11/P1/F1/R2", Cfg::new(0, 2, ("0.25", "0.25"), "R2"), plain(menu_p1(1, 1)), &mut v);
+            mk("B11/P1/F1/R5", Cfg::new(0, 2, ("0.25", "0.25"), "R5"), Menu { prices: vec!["2"], ..menu_p1(1, 1) }, &mut v);
             // two quote denominations: the fee is escrowed in the bid's own quote denomination, not in the other one
             mk("B11/multi-denom", multi(Cfg::new(0, 2, ("0.25", "0.25"), "R0")), plain(menu_multi(1, 1)), &mut v);
             v.extend(upgrade_family(&|c, m| probes::fee_creates(c, m), false));
@@ -864,6 +884,16 @@ pub fn plan(prop: &str, tier: Tier) -> Plan {
                     }
                 }
             }
+            // restricted markers whose marker account lists required attributes are restricted markers all the same
+            for spec in ["ann", "nan", "nna", "aua", "aaa"] {
+                let cfg = with_markers(Cfg::new(0, 1, ("0.25", "0.25"), "R0"), spec);
+                let mut menu = menu_p0(1, 1, vec!["2", "4"]);
+                menu.sizes = vec![1, 2];
+                menu.match_sizes = vec![1, 2];
+                let mut p = probes::creates(&cfg, &menu, 1);
+                p.extend(probes::reversals(&cfg, &menu));
+                v.push(scen(&format!("B11/P0/F1/{spec}"), cfg, menu, p));
+            }
             for spec in ["nrnur", "rnrnu", "urunr", "rurrn"] {
                 let cfg = with_markers(multi(Cfg::new(0, 2, ("0.25", "0.25"), "R0")), spec);
                 v.push(scen(&format!("B11/multi-denom/{spec}"), cfg, menu_multi(1, 1), vec![]));
@@ -888,7 +918,8 @@ pub fn plan(prop: &str, tier: Tier) -> Plan {
         "C12" => {
             let mut v = vec![];
             let k = if th { 3 } else { 2 };
-            for (name, fee) in [("F1", ("0.25", "0.25")), ("F0", ("", ""))] {
+            // (the third book holds a convertible ask: an ask awaiting approval is an open order like any other)
+            for (name, fee) in [("F1", ("0.25", "0.25")), ("F0", ("", "")), ("F1/conv", ("0.25", "0.25"))] {
                 let mut cfg = Cfg::new(0, 2, fee, "R0");
                 cfg.executors = vec![cfg.roles.get("exec").into(), cfg.roles.get("exec2").into()];
                 let mut menu = menu_p1(1, 1);
@@ -896,7 +927,7 @@ pub fn plan(prop: &str, tier: Tier) -> Plan {
                 menu.sizes = vec![2];
                 menu.match_sizes = vec![2];
                 menu.reject_sizes = vec![];
-                menu.ask_bases = vec!["base"];
+                menu.ask_bases = if name.ends_with("conv") { vec!["conv"] } else { vec!["base"] };
                 // a few accepted changes are part of L so that the configuration itself varies
                 let r = cfg.roles.clone();
                 menu.modifies = vec![
